@@ -21,7 +21,14 @@ import (
 	"time"
 )
 
-const VerifDir = "/verif"
+// VerifDir is the directory the machinery lives in (known_findings.jsonl, evidence/, replays/): the `check`
+// script exports its own location, so a copy of /verif elsewhere reads and writes inside the copy.
+var VerifDir = func() string {
+	if d := os.Getenv("VERIF_DIR"); d != "" {
+		return d
+	}
+	return "/verif"
+}()
 
 type Check struct {
 	ID       string
@@ -319,7 +326,7 @@ func budgetOf(chk *Check, tier string) time.Duration {
 		if tier == "thorough" {
 			b = 12 * time.Minute
 		} else {
-			b = 100 * time.Second
+			b = 240 * time.Second
 		}
 	}
 	if s := os.Getenv("VERIF_BUDGET_S"); s != "" {
